@@ -712,11 +712,11 @@ func TestVerif_C14(t *testing.T) {
 	vsrvGoroutineTracking(true)
 	r.CasesParallel("bubble-gotrack", r.N(10, 10), 0, run("bubble", "general"))
 	vsrvGoroutineTracking(false)
-	r.CasesParallel("bubble", r.N(300, 200), 0, run("bubble", "general"))
+	r.CasesParallel("bubble", r.N(300, 160), 0, run("bubble", "general"))
 	r.CasesParallel("bubble-tiny-window", r.N(60, 40), 0, run("bubble", "tiny-window"))
 	r.CasesParallel("bubble-near-limit", r.N(60, 40), 0, run("bubble", "near-limit"))
 	r.CasesParallel("bubble-early", r.N(60, 40), 0, run("bubble", "early"))
-	r.CasesParallel("realtime", r.N(160, 150), runtime.GOMAXPROCS(0), run("realtime", "general"))
+	r.CasesParallel("realtime", r.N(160, 120), runtime.GOMAXPROCS(0), run("realtime", "general"))
 	r.CasesParallel("realtime-tiny-window", r.N(40, 30), runtime.GOMAXPROCS(0), run("realtime", "tiny-window"))
 
 	r.Require("exchanges_compared_equal", 500)
